@@ -89,18 +89,32 @@ func (c *BaseTableMetaCache) Init(ctx context.Context) error {
 // refresh
 func (c *BaseTableMetaCache) refresh(ctx context.Context) {
 	f := func() {
-		if c.db == nil || c.cfg == nil || c.cache == nil || len(c.cache) == 0 {
+		if c.db == nil || c.cfg == nil {
 			return
 		}
 
+		// the cache is read and written by every statement of every connection:
+		// collect the table names under the lock
+		c.lock.RLock()
 		tables := make([]string, 0, len(c.cache))
 		for table := range c.cache {
 			tables = append(tables, table)
 		}
+		c.lock.RUnlock()
+		if len(tables) == 0 {
+			return
+		}
+
 		conn, err := c.db.Conn(ctx)
 		if err != nil {
 			return
 		}
+		// give the connection back: one was taken from the pool on every tick
+		// and never returned (closing must not take the refresher down)
+		defer func() {
+			defer func() { _ = recover() }()
+			_ = conn.Close()
+		}()
 		v, err := c.trigger.LoadAll(ctx, c.cfg.DBName, conn, tables...)
 		if err != nil {
 			return
